@@ -3,6 +3,8 @@ import PgVerif.Proofs.LineCol
 import PgVerif.Spec.Viable
 import PgVerif.Proofs.Viable
 import PgVerif.Proofs.LRNotEarly
+import PgVerif.Proofs.LRViable
+import PgVerif.Proofs.NDSound
 import PgVerif.Model.Decode
 /-!
 # C10 — rejections are SyntaxErrors at the first offending token
@@ -16,9 +18,14 @@ symbols (`C10_lr_error_position`); reductions never move the position.
 That the position is never *early* is proved for the deterministic driver over a
 validated table (`C10_not_early_when_deterministic`): no token path of the input
 through a token starting at the reported position begins a sentence, whatever
-terminals one imagines after it. That it is not *late* (the tokens before it do
-begin a sentence) and the GLR positions are decided, on the explored scope,
-against the viable-prefix oracle `viableEnds` — which is itself
+terminals one imagines after it. It is never *late* either
+(`C10_not_late`): over a table whose item sets are sound (`LRV.lrSound`, decidable,
+evaluated on every implementation table) the symbols on the stack at the moment of
+the error — which derive exactly the tokens read so far — begin a sentential form;
+the same holds along every path of the nondeterministic automaton
+(`C10_every_path_reads_viable_prefixes`), i.e. for every GSS path of GLR. GLR's
+reported position and the expected set are decided, on the explored scope, against
+the viable-prefix oracle `viableEnds` — which is itself
 proved sound and complete for every grammar and input once its charts saturate
 (`C10_viable_ends_correct`): it lists exactly the raw positions that are 0 or end a
 token path beginning a sentential form of the start symbol (`PrefixSeq`).
@@ -121,6 +128,27 @@ theorem C10_not_early_when_deterministic (I : Nat → List LRV.VItem) (F : LRV.F
     (hpath : TokPath inp 0 (toks ++ [a]) j) (ha : a.s = p) :
     ¬ Der g [.nt g.start] ((toks ++ [a]).map (·.term) ++ v) :=
   fun hder => not_early hw hv (detOK_of_bool hT hL hfin hin) hin hm _ rfl fuel p herr toks a j v hpath ha hder
+
+/-- **Not late** (correct-prefix property): when the LR driver reports a syntax error at `p`, the
+stack holds derivation trees of exactly the tokens between 0 and the raw position `pos` with
+`p = skip pos` (`StackD`), and the symbols of that stack begin a sentential form of the grammar.
+For every well-formed table with sound item sets, every input, every option set. -/
+theorem C10_not_late (I : Nat → List LRV.VItem) (hw : T.wf g = true) (hv : LRV.lrSound g T I = true)
+    (cf : LRCfg) (fuel p : Nat) (h : parseLR g T inp cf fuel = .syntaxError p) :
+    ∃ (st : List (Nat × Tree)) (pos : Nat), StackD g inp T st pos ∧ p = inp.skip pos ∧
+      ∃ (root : Nat) (η : List Sym), (∃ pr0, g.prod? 0 = some pr0 ∧ pr0.lhs = root) ∧
+        SDer g [.nt root] (stackSyms T st ++ η) := by
+  obtain ⟨st, pos, hs, hp⟩ := C10_lr_error_position hw cf fuel p h
+  exact ⟨st, pos, hs, hp, stack_viable hv st pos hs⟩
+
+/-- The same along every path of the nondeterministic automaton (every GSS path of the GLR driver):
+whatever has been read begins a sentential form. -/
+theorem C10_every_path_reads_viable_prefixes (I : Nat → List LRV.VItem) (hw : T.wf g = true)
+    (hv : LRV.lrSound g T I = true) (c : Config) (h : Reach g T inp c) :
+    StackD g inp T c.stack c.pos ∧
+      ∃ (root : Nat) (η : List Sym), (∃ pr0, g.prod? 0 = some pr0 ∧ pr0.lhs = root) ∧
+        SDer g [.nt root] (stackSyms T c.stack ++ η) :=
+  ⟨(reach_inv hw c h).st, stack_viable hv c.stack c.pos (reach_inv hw c h).st⟩
 
 /-- The reported line and column determine the position (string inputs). -/
 theorem C10_linecol_inverse (text : List Nat) (pos : Nat) (h : pos ≤ text.length) :
